@@ -406,32 +406,36 @@ func (s *Server) handleNewConnection(ctx context.Context, rwc io.ReadWriteCloser
 		return fmt.Errorf("error writing login transaction: %w", err)
 	}
 
-	c := s.NewClientConn(rwc, remoteAddr)
-	defer c.Disconnect()
-
 	encodedPassword := clientLogin.GetField(FieldUserPassword).Data
-	c.Version = clientLogin.GetField(FieldVersion).Data
 
 	login := clientLogin.GetField(FieldUserLogin).DecodeObfuscatedString()
 	if login == "" {
 		login = GuestAccount
 	}
 
-	c.Logger = s.Logger.With("ip", ipAddr, "login", login)
+	logger := s.Logger.With("ip", ipAddr, "login", login)
 
-	// If authentication fails, send error reply and close connection
-	if !c.Authenticate(login, encodedPassword) {
-		t := c.NewErrReply(&clientLogin, "Incorrect login.")[0]
+	// If authentication fails, send error reply and close connection.  The connection is only added to the client
+	// manager once it has authenticated, so that a failed login attempt is invisible to the connected users.
+	unauthenticated := &ClientConn{Server: s}
+	if !unauthenticated.Authenticate(login, encodedPassword) {
+		t := unauthenticated.NewErrReply(&clientLogin, "Incorrect login.")[0]
 
 		_, err := io.Copy(rwc, &t)
 		if err != nil {
 			return err
 		}
 
-		c.Logger.Info("Incorrect login")
+		logger.Info("Incorrect login")
 
 		return nil
 	}
+
+	c := s.NewClientConn(rwc, remoteAddr)
+	defer c.Disconnect()
+
+	c.Version = clientLogin.GetField(FieldVersion).Data
+	c.Logger = logger
 
 	if clientLogin.GetField(FieldUserIconID).Data != nil {
 		c.Icon = clientLogin.GetField(FieldUserIconID).Data
